@@ -503,11 +503,24 @@ def _standard_check(prop, a, r, harness_args, coqchk, consts, harness_timeout, p
     exe, out = build_harness(prop)
     if exe is None:
         log(out[-3000:])
-        # the repository (with hooks) no longer builds: nothing can be decided
-        r.coverage["explanation"] = "harness build failed"
         log("harness build failed")
-        r.cleanup()
-        return 2
+        # Does the repository itself (guard off) still build? If not, nothing can be decided (status 2).
+        rc0, out0 = run(["go", "build", "./..."], cwd=REPO, timeout=900, env=goenv())
+        if rc0 != 0:
+            r.coverage["explanation"] = "the repository does not build"
+            log(out0[-2000:])
+            r.cleanup()
+            return 2
+        # The repository builds but the driver (export files / API used by the correspondence run) does not:
+        # the tie between model and code is broken, the property is no longer shown to hold.
+        gate = proof_gate(prop)
+        r.violation("corr:harness-build",
+                    "correspondence %s: the implementation driver no longer builds against the repository "
+                    "(an interface the correspondence run relies on changed)" % prop,
+                    {"correspondence": "corr:%s/harness-build" % prop, "build_output_tail": out[-2500:]},
+                    found_input=False)
+        r.coverage["explanation"] = "harness build failed; repository builds"
+        return r.finish(gate)
     if consts:
         regen_consts(prop, exe)
     gate = proof_gate(prop)
